@@ -133,6 +133,8 @@ func (d *Decorator) DecorateNode(n ast.Node) (dst.Node, error) {
 		fd.file = f
 	}
 	if p, ok := n.(*ast.Package); ok {
+		// Identifiers are resolved against the imports of the file they are written in.
+		fd.pkg = p
 		// Each file of a package gets it's own fragment list, so comments and newlines are never
 		// attached to a node in a neighbouring file.
 		for _, f := range p.Files {
@@ -183,7 +185,8 @@ func (pd *Decorator) newFileDecorator() *fileDecorator {
 
 type fileDecorator struct {
 	*Decorator
-	file          *ast.File // file we're decorating in for import name resolution - can be nil if we're just decorating an isolated node
+	file          *ast.File    // file we're decorating in for import name resolution - can be nil if we're just decorating an isolated node
+	pkg           *ast.Package // package we're decorating - the file of each identifier is looked up by position
 	cursor        int
 	fragments     []fragment
 	startIndents  map[ast.Node]int
@@ -325,6 +328,24 @@ func (f *fileDecorator) decorateSelectorExpr(parent ast.Node, parentName, parent
 
 }
 
+// fileOf returns the file an identifier belongs to: the file being decorated, or, when a whole
+// package is decorated, the file of the package that contains the identifier's position.
+func (f *fileDecorator) fileOf(id *ast.Ident) *ast.File {
+	if f.file != nil || f.pkg == nil || f.Fset == nil {
+		return f.file
+	}
+	tf := f.Fset.File(id.Pos())
+	if tf == nil {
+		return nil
+	}
+	for _, file := range f.pkg.Files {
+		if f.Fset.File(file.Pos()) == tf {
+			return file
+		}
+	}
+	return nil
+}
+
 func (f *fileDecorator) resolvePath(force bool, parent ast.Node, parentName, parentField, parentFieldType string, id *ast.Ident) (string, error) {
 
 	if f.Resolver == nil {
@@ -340,7 +361,7 @@ func (f *fileDecorator) resolvePath(force bool, parent ast.Node, parentName, par
 		}
 	}
 
-	path, err := f.Resolver.ResolveIdent(f.file, parent, parentField, id)
+	path, err := f.Resolver.ResolveIdent(f.fileOf(id), parent, parentField, id)
 	if err != nil {
 		return "", err
 	}
